@@ -187,8 +187,8 @@ impl Brc20ProgDatabase {
                     .as_ref()
                     .expect(DB_MUTEX_ERROR)
                     .last_key()?
-                    .unwrap_or(0)
-                    + 1);
+                    .map(|block_number| block_number + 1)
+                    .unwrap_or(0));
             }
         }
     }
